@@ -325,7 +325,12 @@ pub fn check(ctx: &mut Ctx, c: &Case) -> Result<(), String> {
                 user: passkey_types::webauthn::PublicKeyCredentialUserEntity { id: b"c06-user".to_vec().into(), display_name: "d".into(), name: "n".into() },
                 pub_key_cred_params: cer::params(&[-7]),
                 exclude_list: None,
-                extensions: (c.prf_reg > 0).then(|| make_credential::ExtensionInputs { hmac_secret: Some(true), hmac_secret_mc: None, prf: Some(salts(c.prf_reg)) }),
+                // (a third of these also carry an hmac-secret-mc input, which only a CTAP2-level caller can send)
+                extensions: (c.prf_reg > 0).then(|| make_credential::ExtensionInputs {
+                    hmac_secret: Some(true),
+                    hmac_secret_mc: (c.prf_input.len() % 3 == 1).then(|| passkey_types::ctap2::extensions::HmacGetSecretInput { key_agreement: ciborium::value::Value::Map(vec![]), salt_enc: vec![0x5A; 32].into(), salt_auth: vec![0xA5; 16].into(), pin_uv_auth_protocol: (c.prf_input.len() % 2 == 0).then_some(1) }),
+                    prf: (c.prf_input.len() % 5 != 4).then(|| salts(c.prf_reg)),
+                }),
                 options: make_credential::Options { rk: c.disc % 3 != 2 && c.site % 2 == 0, up: true, uv: c.uv_req % 3 != 2 },
                 pin_auth: None,
                 pin_protocol: None,
@@ -365,6 +370,37 @@ pub fn check(ctx: &mut Ctx, c: &Case) -> Result<(), String> {
             }
             for pk in store.creds() {
                 sc2.scan_dbg("Debug of a stored passkey", &pk)?;
+            }
+            // an imported credential of this RP whose PRF secrets have other lengths than 32 bytes, asked for a PRF evaluation:
+            // whatever happens (result, error, even a panic) must not show the secrets
+            if c.hmac.enabled() && c.prf_auth > 0 {
+                let odd_len = [20usize, 48, 65, 33][c.prf_input.len() % 4];
+                let odd = crate::model::util::make_passkey(607, site.effective, b"c06-odd-secret-credential", Some(b"odd-user"), None, Some(((0..odd_len).map(|i| 0x30 + (i * 7 % 200) as u8).collect(), Some((0..odd_len).map(|i| 0x21 + (i * 11 % 200) as u8).collect()))));
+                store.0.lock().unwrap().creds.push(odd);
+                let req = get_assertion::Request {
+                    rp_id: site.effective.into(),
+                    client_data_hash: vec![4u8; 32].into(),
+                    allow_list: Some(vec![cer::descriptor(b"c06-odd-secret-credential")]),
+                    extensions: Some(get_assertion::ExtensionInputs { hmac_secret: None, prf: Some(salts(c.prf_auth)) }),
+                    options: get_assertion::Options { rk: false, up: true, uv: c.uv_req % 3 != 2 },
+                    pin_auth: None,
+                    pin_protocol: None,
+                };
+                let mut sc4 = Scanner::new(&stored(&store));
+                match std::panic::catch_unwind(std::panic::AssertUnwindSafe(|| block_on(auth.get_assertion(req)))) {
+                    Ok(Ok(r)) => {
+                        sc4.scan("getAssertion response CBOR (credential with odd-sized secrets)", &to_cbor(&r)?)?;
+                        sc4.scan_dbg("getAssertion response (credential with odd-sized secrets)", &r)?;
+                    }
+                    Ok(Err(e)) => sc4.scan_dbg("getAssertion error (credential with odd-sized secrets)", &e)?,
+                    Err(_) => {
+                        ctx.class("ctap2/panic while evaluating PRF on odd-sized secrets (message scanned)");
+                        sc4.scan("panic message (credential with odd-sized secrets)", crate::last_panic().as_bytes())?;
+                    }
+                }
+                artefacts += sc4.renderings;
+                bytes += sc4.bytes_scanned;
+                store.0.lock().unwrap().creds.retain(|p| p.credential_id.as_slice() != b"c06-odd-secret-credential");
             }
             // the same account registers again (an authenticator may replace or keep the earlier credential)
             let again = make_credential::Request {
